@@ -99,10 +99,11 @@ Theorem checker_order_by : forall dirs B rows,
 Proof. exact order_by_chk_l. Qed.
 
 (* ------------------------------------------------------------------ end to end on the model *)
-(* every table, every query of the fragment outside the recorded finding classes: the rows the
-   implementation model returns satisfy the property *)
+(* every table, every query of the fragment outside the recorded finding classes (1, 2, 3, 6 -- a
+   function of the query alone): the rows the implementation model returns satisfy the property,
+   DISTINCT with LIMIT / OFFSET, -0.0 and unary minus included *)
 Theorem model_meets_spec : forall ncols q t rows,
-  known_class_case ncols q t = 0%Z ->
+  known_class_q ncols q = 0%Z ->
   model_query ncols q t = MRows rows ->
   query_spec ncols q t rows.
 Proof. exact model_meets_spec_l. Qed.
@@ -116,14 +117,28 @@ Theorem group_model_meets_spec : forall ncols gq t rows,
 Proof. exact group_model_meets_spec_l. Qed.
 
 (* each recorded class contains a query that the faithful model answers wrongly *)
-Theorem known_classes_refuted :
-  refuted 1 /\ refuted 2 /\ refuted 3 /\ refuted 4 /\ refuted 5 /\ refuted 6 /\ refuted 7.
+Theorem known_classes_refuted : refuted 1 /\ refuted 2 /\ refuted 3 /\ refuted 6.
 Proof. exact known_classes_refuted_l. Qed.
+
+(* HISTORICAL (classes repaired in /repo: unary minus in a key, DISTINCT before LIMIT, column list
+   projected once, DISTINCT 0.0 / -0.0): their former witnesses are in class 0 of the model of the
+   repaired code and answered correctly *)
+Theorem repaired_witnesses_correct :
+  now_correct 3 wt (mkQ false (SelList [SI 0 false; SI 1 false]) None [(KExpr (XNeg (XCol 1)), true)] None None) /\
+  now_correct 3 wt (mkQ true (SelList [SI 1 false]) None [(KCol 1 false, false)] (Some 2) None) /\
+  now_correct 3 wt (mkQ true (SelList [SI 1 false]) None [] None None) /\
+  now_correct 2 wz (mkQ true (SelList [SI 1 false]) (Some 0) [] None None).
+Proof. exact repaired_witnesses_correct_l. Qed.
+
+(* the reference value of a key expression without a function call is the evaluator of the
+   shared SQL semantics *)
+Theorem key_expression_is_sql_eval : forall e r, kexpr_has_fn e = false -> spec_kexpr e r = eval (to_expr e) r.
+Proof. exact spec_kexpr_is_eval. Qed.
 
 (* non-vacuity: class 0 contains multi-key ORDER BY with DESC, LIMIT / OFFSET, DISTINCT with an
    alias key over NULLs and duplicates; the hypotheses of the comparator theorems are met *)
 Example c15_witness :
-  known_class_case 3 (mkQ false (SelList [SI 0 false; SI 1 false]) None [(KCol 1 false, false); (KCol 0 false, true)] (Some 3) (Some 1)) wt = 0%Z /\
+  known_class_q 3 (mkQ false (SelList [SI 0 false; SI 1 false]) None [(KCol 1 false, false); (KCol 0 false, true)] (Some 3) (Some 1)) = 0%Z /\
   model_query 3 (mkQ false (SelList [SI 0 false; SI 1 false]) None [(KCol 1 false, false); (KCol 0 false, true)] (Some 3) (Some 1)) wt
     = MRows [[VInt 4; VInt 3]; [VInt 5; VInt 2]; [VInt 3; VInt 1]] /\
   comparable VNull (VInt 3) /\ comparable (VText [97]) (VText [98]) /\
@@ -175,15 +190,20 @@ Check checker_order_by : forall dirs B rows,
   result_chk dirs false B 0 None rows = true ->
   exists S, Permutation S (map norm_elt B) /\ sorted_by (elt_cmp dirs) S /\ map norm_row rows = map snd S.
 Check model_meets_spec : forall ncols q t rows,
-  known_class_case ncols q t = 0%Z ->
+  known_class_q ncols q = 0%Z ->
   model_query ncols q t = MRows rows ->
   query_spec ncols q t rows.
 Check group_model_meets_spec : forall ncols gq t rows,
   model_group ncols gq t = MRows rows ->
   result_defined (g_dirs gq) false (g_elts gq t) = true ->
   result_spec (g_dirs gq) false (g_elts gq t) (g_off gq) (g_lim gq) rows.
-Check known_classes_refuted :
-  refuted 1 /\ refuted 2 /\ refuted 3 /\ refuted 4 /\ refuted 5 /\ refuted 6 /\ refuted 7.
+Check known_classes_refuted : refuted 1 /\ refuted 2 /\ refuted 3 /\ refuted 6.
+Check repaired_witnesses_correct :
+  now_correct 3 wt (mkQ false (SelList [SI 0 false; SI 1 false]) None [(KExpr (XNeg (XCol 1)), true)] None None) /\
+  now_correct 3 wt (mkQ true (SelList [SI 1 false]) None [(KCol 1 false, false)] (Some 2) None) /\
+  now_correct 3 wt (mkQ true (SelList [SI 1 false]) None [] None None) /\
+  now_correct 2 wz (mkQ true (SelList [SI 1 false]) (Some 0) [] None None).
+Check key_expression_is_sql_eval : forall e r, kexpr_has_fn e = false -> spec_kexpr e r = eval (to_expr e) r.
 
 Print Assumptions key_order_total_preorder.
 Print Assumptions null_first_asc_last_desc.
@@ -206,3 +226,5 @@ Print Assumptions checker_order_by.
 Print Assumptions model_meets_spec.
 Print Assumptions group_model_meets_spec.
 Print Assumptions known_classes_refuted.
+Print Assumptions repaired_witnesses_correct.
+Print Assumptions key_expression_is_sql_eval.
